@@ -127,7 +127,11 @@ class TimedList(Generic[Item]):
             raise ValueError("Column Names do not match.")
         for col_name, (col_type, default) in cls._item_class()._props.items():
             if col_name not in df:
-                df[col_name] = default
+                if isinstance(default, list):
+                    # a list default is one fresh list per row, not a column
+                    df[col_name] = [list(default) for _ in range(len(df))]
+                else:
+                    df[col_name] = default
                 df[col_name] = df[col_name].astype(col_type)
 
         tl.df = df
